@@ -97,6 +97,7 @@ func (fe *FnEnc) callWithArgs(st *State, instr ssa.Instruction, common *ssa.Call
 		fe.setResult(st, res, sig, fe.freshResults(st, sig, "dyn"))
 		return
 	}
+	inst := callee
 	if o := callee.Origin(); o != nil {
 		callee = o
 	}
@@ -106,6 +107,7 @@ func (fe *FnEnc) callWithArgs(st *State, instr ssa.Instruction, common *ssa.Call
 			if target := fe.c.prog.FuncValue(obj); target != nil {
 				a2 := append(append([]RV{}, bindings...), args...)
 				callee = target
+				inst = target
 				if o := callee.Origin(); o != nil {
 					callee = o
 				}
@@ -115,40 +117,82 @@ func (fe *FnEnc) callWithArgs(st *State, instr ssa.Instruction, common *ssa.Call
 		}
 	}
 	name := calleeName(callee)
+	// a handler closure invoked through http.HandlerFunc: use the closure's contract
+	if name == "(net/http.HandlerFunc).ServeHTTP" && len(args) == 3 && args[0].Clos != nil {
+		if fc := fe.c.contractFor(args[0].Clos.Fn); fc != nil {
+			cf := args[0].Clos.Fn
+			fe.applyContract(st, instr, fc, cf, cf, args[1:], args[0].Clos.Bindings, res, cf.Signature)
+			return
+		}
+	}
 	// contract?
 	if fc := fe.c.contractFor(callee); fc != nil {
-		fe.applyContract(st, instr, fc, callee, args, bindings, res, sig)
+		fe.applyContract(st, instr, fc, callee, inst, args, bindings, res, sig)
 		return
+	}
+	// cut points may be anchored at external calls: short name pkg.Func or Type.Method
+	short := callee.Name()
+	if r := callee.Signature.Recv(); r != nil {
+		short = recvTypeName(r.Type()) + "." + callee.Name()
+	} else if callee.Pkg != nil {
+		short = callee.Pkg.Pkg.Name() + "." + callee.Name()
 	}
 	// effects table
 	if h, ok := effects[name]; ok {
 		fe.curCallRecv = nil
+		fe.curCallArgs = common.Args
 		if len(common.Args) > 0 {
 			fe.curCallRecv = common.Args[0]
 		}
+		fe.callOrd[short]++
+		fe.cutPointsAt(st, short, fe.callOrd[short], pos, false)
 		rets := h(fe, st, callee, args, pos)
 		fe.assumed["stdlib: "+name] = true
-		if rets != nil || sig.Results().Len() == 0 {
-			fe.setResult(st, res, sig, rets)
-			return
+		if rets == nil && sig.Results().Len() > 0 {
+			rets = fe.freshResults(st, sig, callee.Name())
 		}
-		fe.setResult(st, res, sig, fe.freshResults(st, sig, callee.Name()))
+		fe.setResult(st, res, sig, rets)
+		fe.cutPointsAt(st, short, fe.callOrd[short], pos, true)
 		return
 	}
 	// in-scope function without contract: inferred write set, unconstrained results
 	if _, ok := fe.c.fnKey[callee]; ok {
-		ws := fe.c.writeSetOf(callee)
+		fe.callOrd[short]++
+		fe.cutPointsAt(st, short, fe.callOrd[short], pos, false)
+		ws := fe.c.writeSetOfInst(inst)
 		fe.applyWriteSet(st, ws, name)
-		fe.setResult(st, res, sig, fe.freshResults(st, sig, callee.Name()))
+		rets := fe.freshResults(st, sig, callee.Name())
+		if cfn, idx := closureCtor(callee); cfn != nil && len(rets) == 1 {
+			// the callee only builds a closure over its parameters: remember which, with cells holding the arguments
+			ci := &ClosInfo{Fn: cfn}
+			for _, pi := range idx {
+				r := fe.newRef(st)
+				pt := callee.Params[pi].Type()
+				if structOf(pt) != nil {
+					a := &Addr{kind: aStruct, base: r, T: pt}
+					fe.store(st, a, fe.val(args[pi]))
+				} else {
+					a := &Addr{kind: aCell, base: r, T: pt}
+					fe.store(st, a, fe.val(args[pi]))
+				}
+				ci.Bindings = append(ci.Bindings, RV{T: r, Valid: true})
+			}
+			rets[0].Clos = ci
+		}
+		fe.setResult(st, res, sig, rets)
+		fe.cutPointsAt(st, short, fe.callOrd[short], pos, true)
 		return
 	}
 	// external
 	if pkgPure(callee) {
 		fe.assumed["external call assumed to write only through its pointer arguments: "+name] = true
+		fe.callOrd[short]++
+		fe.cutPointsAt(st, short, fe.callOrd[short], pos, false)
 		fe.havocComp(st, "alloc", sInt)
 		fe.havocPointees(st, callee, args, common.Args)
 		rets := fe.freshResults(st, sig, callee.Name())
 		fe.setResult(st, res, sig, rets)
+		fe.cutPointsAt(st, short, fe.callOrd[short], pos, true)
 		return
 	}
 	fe.havocs[name] = true
@@ -169,6 +213,7 @@ func (fe *FnEnc) applyWriteSet(st *State, ws *WriteSet, who string) {
 		if k != "alloc" {
 			if t, ok := ws.types[k]; ok {
 				fe.compT[k] = t
+				fe.sorts.sortOf(t)
 			}
 			fe.havocComp(st, k, ws.comps[k])
 		}
@@ -211,11 +256,79 @@ func derefNamed(t types.Type) (*types.Named, bool) {
 // ---------------------------------------------------------------------
 // write-set inference for functions without an explicit modifies clause
 
+// instSubst gives the type-parameter substitution of an instantiated generic function (nil otherwise).
+func instSubst(fn *ssa.Function) map[string]types.Type {
+	o := fn.Origin()
+	if o == nil {
+		return nil
+	}
+	ta := fn.TypeArgs()
+	m := map[string]types.Type{}
+	var names []string
+	if tps := o.TypeParams(); tps != nil {
+		for i := 0; i < tps.Len(); i++ {
+			names = append(names, tps.At(i).Obj().Name())
+		}
+	}
+	if recv := o.Signature.Recv(); recv != nil && len(names) < len(ta) {
+		if n, ok := derefNamed(recv.Type()); ok && n.TypeArgs() != nil {
+			var rn []string
+			for i := 0; i < n.TypeArgs().Len(); i++ {
+				if tp, ok := n.TypeArgs().At(i).(*types.TypeParam); ok {
+					rn = append(rn, tp.Obj().Name())
+				}
+			}
+			names = append(rn, names...)
+		}
+	}
+	for i, n := range names {
+		if i < len(ta) {
+			m[n] = ta[i]
+		}
+	}
+	return m
+}
+
+func substKey(m map[string]types.Type) string {
+	if len(m) == 0 {
+		return ""
+	}
+	s := ""
+	for _, k := range sortedKeys(m) {
+		s += k + "=" + typeKey(m[k]) + ";"
+	}
+	return s
+}
+
+// writeSetOfInst: the write set of a callee as seen from a call site (type parameters substituted).
+func (c *Ctx) writeSetOfInst(inst *ssa.Function) *WriteSet {
+	sub := instSubst(inst)
+	if len(sub) == 0 {
+		return c.writeSetOf(inst)
+	}
+	fn := inst.Origin()
+	key := fn.String() + "|" + substKey(sub)
+	if ws, ok := c.instWS[key]; ok {
+		return ws
+	}
+	saved, savedTmp := curSubst, c.instTmp
+	curSubst = sub
+	c.instTmp = map[*ssa.Function]*WriteSet{}
+	ws := c.writeSetOf(fn)
+	curSubst, c.instTmp = saved, savedTmp
+	c.instWS[key] = ws
+	return ws
+}
+
 func (c *Ctx) writeSetOf(fn *ssa.Function) *WriteSet {
 	if o := fn.Origin(); o != nil {
 		fn = o
 	}
-	if ws, ok := c.writeSets[fn]; ok {
+	cache := c.writeSets
+	if len(curSubst) > 0 {
+		cache = c.instTmp
+	}
+	if ws, ok := cache[fn]; ok {
 		return ws
 	}
 	if c.wsBusy[fn] {
@@ -238,7 +351,7 @@ func (c *Ctx) writeSetOf(fn *ssa.Function) *WriteSet {
 				}
 			}
 		}
-		c.writeSets[fn] = ws
+		cache[fn] = ws
 		return ws
 	}
 	c.wsBusy[fn] = true
@@ -254,7 +367,7 @@ func (c *Ctx) writeSetOf(fn *ssa.Function) *WriteSet {
 	delete(c.wsBusy, fn)
 	ws := newWriteSet()
 	ws.addAll(d.fnWrites)
-	c.writeSets[fn] = ws
+	cache[fn] = ws
 	return ws
 }
 
@@ -329,7 +442,8 @@ func (fe *FnEnc) resolveModifiesAll(m string) map[string]string {
 	return out
 }
 
-var ghostCompSorts = map[string]string{"held": arrSort(sInt, sBool), "clock": sInt}
+var ghostCompSorts = map[string]string{"held": arrSort(sInt, sBool), "clock": sInt, "fault": sBool, "mutations": sInt, "blobReady": sBool,
+	"HDR": arrSort(sInt, arrSort(sStr, sStr)), "M.ResponseWriter.status": arrSort(sInt, sInt), "M.BlobCreator.written": arrSort(sInt, sInt)}
 
 func (fe *FnEnc) safeResolve(env *Env, name string) (t types.Type) {
 	defer func() {
@@ -375,9 +489,12 @@ func (fe *FnEnc) resolveModifies(m string) (string, string) {
 // ---------------------------------------------------------------------
 // contract application at a call site
 
-func (fe *FnEnc) callEnv(pre, post *State, fc *FuncContract, callee *ssa.Function, args []RV, bindings []RV, rets []RV) *Env {
+func (fe *FnEnc) callEnv(pre, post *State, fc *FuncContract, callee *ssa.Function, inst *ssa.Function, args []RV, bindings []RV, rets []RV) *Env {
 	env := fe.baseEnv(post)
 	env.old = pre
+	if inst != nil {
+		env.tparams = instSubst(inst)
+	}
 	if callee != nil {
 		if p := fe.c.pkgOf(callee); p != nil {
 			env.pkg = p.Pkg
@@ -398,12 +515,20 @@ func (fe *FnEnc) callEnv(pre, post *State, fc *FuncContract, callee *ssa.Functio
 			if i >= len(args) {
 				break
 			}
-			bind(p.Name(), args[i], p.Type())
+			pt := p.Type()
+			if inst != nil && inst != callee {
+				// parameter types of the instantiation
+				saved := curSubst
+				curSubst = env.tparams
+				pt = substType(pt)
+				curSubst = saved
+			}
+			bind(p.Name(), args[i], pt)
 			if i == 0 && callee.Signature.Recv() != nil {
-				bind(fc.RecvName, args[i], p.Type())
+				bind(fc.RecvName, args[i], pt)
 			} else {
 				if pi < len(fc.Params) {
-					bind(fc.Params[pi], args[i], p.Type())
+					bind(fc.Params[pi], args[i], pt)
 				}
 				pi++
 			}
@@ -432,10 +557,10 @@ func (fe *FnEnc) callEnv(pre, post *State, fc *FuncContract, callee *ssa.Functio
 	return env
 }
 
-func (fe *FnEnc) applyContract(st *State, instr ssa.Instruction, fc *FuncContract, callee *ssa.Function, args []RV, bindings []RV, res ssa.Value, sig *types.Signature) {
+func (fe *FnEnc) applyContract(st *State, instr ssa.Instruction, fc *FuncContract, callee *ssa.Function, inst *ssa.Function, args []RV, bindings []RV, res ssa.Value, sig *types.Signature) {
 	pos := instr.Pos()
 	if fe.dry {
-		ws := fe.c.writeSetOf(callee)
+		ws := fe.c.writeSetOfInst(inst)
 		fe.applyWriteSet(st, ws, fc.Key)
 		fe.setResult(st, res, sig, fe.freshResults(st, sig, callee.Name()))
 		return
@@ -447,7 +572,7 @@ func (fe *FnEnc) applyContract(st *State, instr ssa.Instruction, fc *FuncContrac
 			fe.safety(st, "nil", pos, tNot(tEq(fe.val(args[0]), tInt(0))))
 		}
 	}
-	envPre := fe.callEnv(pre, pre, fc, callee, args, bindings, nil)
+	envPre := fe.callEnv(pre, pre, fc, callee, inst, args, bindings, nil)
 	envPre.pre = true
 	fe.callOrd[fc.Key]++
 	for i := range fc.Requires {
@@ -459,10 +584,10 @@ func (fe *FnEnc) applyContract(st *State, instr ssa.Instruction, fc *FuncContrac
 		props = unionProps(props, fe.propsFor(nil))
 		fe.addOblExpr(st, "pre", fmt.Sprintf("%s:%s@%d", fc.Key, cl.Label, fe.callOrd[fc.Key]), props, cl.E, envPre, pos)
 	}
-	ws := fe.c.writeSetOf(callee)
+	ws := fe.c.writeSetOfInst(inst)
 	fe.applyWriteSet(st, ws, fc.Key)
 	rets := fe.freshResults(st, sig, callee.Name())
-	env := fe.callEnv(pre, st, fc, callee, args, bindings, rets)
+	env := fe.callEnv(pre, st, fc, callee, inst, args, bindings, rets)
 	for i := range fc.Ensures {
 		cl := &fc.Ensures[i]
 		fe.assumeClause(st, fmt.Sprintf("call.%s@%d.%s", fc.Key, fe.callOrd[fc.Key], cl.Label), cl.E, env)
@@ -483,9 +608,20 @@ func (fe *FnEnc) cutPointsAt(st *State, key string, ord int, pos token.Pos, afte
 	if fe.contract == nil || fe.dry {
 		return
 	}
+	callText := ""
 	for i := range fe.contract.Asserts {
 		as := &fe.contract.Asserts[i]
-		if as.After != after || as.Callee != key || as.K != ord {
+		if as.After != after {
+			continue
+		}
+		if as.Text != "" {
+			if callText == "" {
+				callText = fe.callSrc(pos)
+			}
+			if !strings.Contains(callText, as.Text) {
+				continue
+			}
+		} else if as.Callee != key || as.K != ord {
 			continue
 		}
 		var l *Loop
@@ -540,6 +676,9 @@ func (fe *FnEnc) callInvoke(st *State, instr ssa.Instruction, common *ssa.CallCo
 		full = "iface." + mname
 	}
 	if h, ok := effects[full]; ok {
+		shortI := tn + "." + mname
+		fe.callOrd[shortI]++
+		fe.cutPointsAt(st, shortI, fe.callOrd[shortI], pos, false)
 		rets := h(fe, st, nil, append([]RV{recv}, args...), pos)
 		fe.assumed["stdlib: "+full] = true
 		if rets == nil && sig.Results().Len() > 0 {
@@ -616,7 +755,8 @@ func (fe *FnEnc) applyIfaceContract(st *State, instr ssa.Instruction, cf *Contra
 	rets := fe.freshResults(st, sig, fc.Key)
 	env := mkEnv(pre, st, rets)
 	for i := range fc.Ensures {
-		fe.assume(st, fe.trBool(fc.Ensures[i].E, env))
+		cl := &fc.Ensures[i]
+		fe.assumeClause(st, fmt.Sprintf("call.%s@%d.%s", fc.Key, fe.callOrd[fc.Key], cl.Label), cl.E, env)
 	}
 	fe.assumed["interface contract (assumed for callers): "+fc.Key] = true
 	fe.setResult(st, res, sig, rets)
@@ -860,7 +1000,25 @@ func (fe *FnEnc) builtinAppend(st *State, common *ssa.CallCommon, args []RV, res
 		for j := int64(0); j < k; j++ {
 			fe.emit(fmt.Sprintf("(assert (= (select %s (+ %s %d)) %s))", fr.S, ln.S, j, tSel(srcRow, tArith("+", srcOff, tInt(j))).S))
 		}
-		newRow = tIte(fits, inplace, fr)
+		ip := fe.define("app.inplace", inplace)
+		if ip.S != oldRow.S {
+			// elements known in the old row are known in the in-place result (witnesses), and vice versa
+			var ne []string
+			for j := int64(0); j < k; j++ {
+				ne = append(ne, fmt.Sprintf("(not (= p (+ %s %s %d)))", slOff(s).S, ln.S, j))
+			}
+			cond := "(and " + strings.Join(ne, " ") + ")"
+			if len(ne) == 1 {
+				cond = ne[0]
+			}
+			fe.emit(fmt.Sprintf("(assert (forall ((p Int)) (! (=> %s (= (select %s p) (select %s p))) :pattern ((select %s p)) :pattern ((select %s p)))))",
+				cond, ip.S, oldRow.S, oldRow.S, ip.S))
+		}
+		newRow = fe.define("app.newrow", tIte(fits, ip, fr))
+		// the appended elements, as ground facts about the result row
+		for j := int64(0); j < k; j++ {
+			fe.emit(fmt.Sprintf("(assert (= (select %s (+ %s %s %d)) %s))", newRow.S, ro.S, ln.S, j, tSel(srcRow, tArith("+", srcOff, tInt(j))).S))
+		}
 	} else {
 		fr := fe.fresh("app.row", rowS)
 		// copied prefix
@@ -931,4 +1089,56 @@ func (fe *FnEnc) builtinCopy(st *State, common *ssa.CallCommon, args []RV, res s
 	if res != nil {
 		fe.setReg(res, RV{T: cnt})
 	}
+}
+
+// closureCtor recognises functions of the shape `func f(p...) T { return func(...) {... p ...} }`:
+// it returns the closure and, per free variable, the index of the parameter it captures.
+func closureCtor(fn *ssa.Function) (*ssa.Function, []int) {
+	if len(fn.Blocks) != 1 {
+		return nil, nil
+	}
+	var mc *ssa.MakeClosure
+	for _, ins := range fn.Blocks[0].Instrs {
+		switch x := ins.(type) {
+		case *ssa.MakeClosure:
+			if mc != nil {
+				return nil, nil
+			}
+			mc = x
+		case *ssa.Call, *ssa.Go, *ssa.Defer:
+			if c, ok := ins.(*ssa.Call); ok {
+				if b, ok := c.Call.Value.(*ssa.Builtin); ok && b.Name() == "ssa:deferstack" {
+					continue
+				}
+			}
+			return nil, nil
+		}
+	}
+	if mc == nil {
+		return nil, nil
+	}
+	var idx []int
+	for _, b := range mc.Bindings {
+		a, ok := b.(*ssa.Alloc)
+		if !ok {
+			return nil, nil
+		}
+		found := -1
+		for _, ref := range *a.Referrers() {
+			if s, ok := ref.(*ssa.Store); ok && s.Addr == ssa.Value(a) {
+				if p, ok := s.Val.(*ssa.Parameter); ok {
+					for i, q := range fn.Params {
+						if q == p {
+							found = i
+						}
+					}
+				}
+			}
+		}
+		if found < 0 {
+			return nil, nil
+		}
+		idx = append(idx, found)
+	}
+	return mc.Fn.(*ssa.Function), idx
 }
